@@ -225,10 +225,10 @@ theorem rowPass_fix (rows : List CRow) : ∀ (t : St) (done : List CRow),
 theorem filePass_fst_false (named : List Nat) (s : St) : (filePass false named s).1 = s := rfl
 
 theorem filePass_fst_true (named : List Nat) (s : St) :
-    (filePass true named s).1 = { s with files := s.files.filter (fun f => named.contains f.id) } := rfl
+    (filePass true named s).1 = { s with files := s.files.filter (fun f => named.contains f.id || f.db) } := rfl
 
 theorem filePass_snd (fix : Bool) (named : List Nat) (s : St) :
-    (filePass fix named s).2 = (s.files.filter (fun f => !named.contains f.id)).map (fun f => .unknown f.id) := rfl
+    (filePass fix named s).2 = (s.files.filter (fun f => !named.contains f.id && !f.db)).map (fun f => .unknown f.id) := rfl
 
 theorem dirPass_fst_false (s : St) : (dirPass false s).1 = s := rfl
 
@@ -236,7 +236,7 @@ theorem dirPass_fst_true (s : St) :
     (dirPass true s).1 = { s with
       dirs2 := s.dirs2.filter (fun d => !dir2Empty s d),
       dirs1 := s.dirs1.filter (fun d =>
-        (s.dirs2.filter (fun d => !dir2Empty s d)).any (·.1 == d) || s.files.any (·.d1 == d)) } := by
+        (s.dirs2.filter (fun d => !dir2Empty s d)).any (·.1 == d) || s.files.any (·.under d)) } := by
   simp only [dirPass, if_true]
   congr 1
   apply List.filter_congr
@@ -246,12 +246,12 @@ theorem dirPass_fst_true (s : St) :
 
 theorem dirPass_snd_false (s : St) :
     (dirPass false s).2 = (s.dirs2.filter (dir2Empty s)).map (fun d => .emptyDir2 d.1 d.2) ++
-      (s.dirs1.filter (fun d => !s.dirs2.any (·.1 == d) && !s.files.any (·.d1 == d))).map .emptyDir1 := rfl
+      (s.dirs1.filter (fun d => !s.dirs2.any (·.1 == d) && !s.files.any (·.under d))).map .emptyDir1 := rfl
 
 theorem dirPass_snd_true (s : St) :
     (dirPass true s).2 = (s.dirs2.filter (dir2Empty s)).map (fun d => .emptyDir2 d.1 d.2) ++
       (s.dirs1.filter (fun d => !(s.dirs2.filter (fun d => !dir2Empty s d)).any (·.1 == d) &&
-          !s.files.any (·.d1 == d))).map .emptyDir1 := rfl
+          !s.files.any (·.under d))).map .emptyDir1 := rfl
 
 theorem counterPass_fst_false (s : St) : (counterPass false s).1 = s := by
   unfold counterPass
@@ -304,15 +304,14 @@ theorem check_true_fst (s : St) (hnd : (s.rows.map (·.rowid)).Nodup) :
       { rows := s.rows.filterMap (fixRow s.files),
         count := (s.rows.filterMap (fixRow s.files)).length,
         size := sumSizes (s.rows.filterMap (fixRow s.files)),
-        files := s.files.filter (fun f => (s.rows.filterMap (·.file)).contains f.id),
+        files := s.files.filter (fun f => (s.rows.filterMap (·.file)).contains f.id || f.db),
         dirs2 := s.dirs2.filter (fun d =>
-          (s.files.filter (fun f => (s.rows.filterMap (·.file)).contains f.id)).any
-            (fun f => f.d1 == d.1 && f.d2 == d.2)),
+          (s.files.filter (fun f => (s.rows.filterMap (·.file)).contains f.id || f.db)).any (·.inDir2 d)),
         dirs1 := s.dirs1.filter (fun d =>
           (s.dirs2.filter (fun d =>
-            (s.files.filter (fun f => (s.rows.filterMap (·.file)).contains f.id)).any
-              (fun f => f.d1 == d.1 && f.d2 == d.2))).any (·.1 == d) ||
-          (s.files.filter (fun f => (s.rows.filterMap (·.file)).contains f.id)).any (·.d1 == d)) } := by
+            (s.files.filter (fun f => (s.rows.filterMap (·.file)).contains f.id || f.db)).any
+              (·.inDir2 d))).any (·.1 == d) ||
+          (s.files.filter (fun f => (s.rows.filterMap (·.file)).contains f.id || f.db)).any (·.under d)) } := by
   rw [check_eq]
   simp only [counterPass_fst_true, dirPass_fst_true, filePass_fst_true]
   have h1 := rowPass_fix s.rows s [] rfl hnd (by simp)
@@ -365,11 +364,12 @@ theorem map_rowid_filterMap_sublist (files : List FsFile) (rows : List CRow) :
 /-! ### the repaired state, field by field -/
 
 def rows' (s : St) : List CRow := s.rows.filterMap (fixRow s.files)
-def files' (s : St) : List FsFile := s.files.filter (fun f => (s.rows.filterMap (·.file)).contains f.id)
+def files' (s : St) : List FsFile :=
+  s.files.filter (fun f => (s.rows.filterMap (·.file)).contains f.id || f.db)
 def dirs2' (s : St) : List (Nat × Nat) :=
-  s.dirs2.filter (fun d => (files' s).any (fun f => f.d1 == d.1 && f.d2 == d.2))
+  s.dirs2.filter (fun d => (files' s).any (·.inDir2 d))
 def dirs1' (s : St) : List Nat :=
-  s.dirs1.filter (fun d => (dirs2' s).any (·.1 == d) || (files' s).any (·.d1 == d))
+  s.dirs1.filter (fun d => (dirs2' s).any (·.1 == d) || (files' s).any (·.under d))
 
 theorem check_true_fst' (s : St) (hnd : (s.rows.map (·.rowid)).Nodup) :
     (check true s).1 = ⟨rows' s, (rows' s).length, sumSizes (rows' s), files' s, dirs1' s, dirs2' s⟩ :=
@@ -394,16 +394,17 @@ theorem mem_rows' {s : St} {r' : CRow} : r' ∈ rows' s ↔ ∃ r ∈ s.rows, fi
   simp [rows', List.mem_filterMap]
 
 theorem mem_files' {s : St} {ff : FsFile} :
-    ff ∈ files' s ↔ ff ∈ s.files ∧ ∃ r ∈ s.rows, r.file = some ff.id := by
+    ff ∈ files' s ↔ ff ∈ s.files ∧ ((∃ r ∈ s.rows, r.file = some ff.id) ∨ ff.db = true) := by
   simp [files', List.mem_filter, List.mem_filterMap]
 
 theorem mem_dirs2' {s : St} {d : Nat × Nat} :
-    d ∈ dirs2' s ↔ d ∈ s.dirs2 ∧ ∃ ff ∈ files' s, ff.d1 = d.1 ∧ ff.d2 = d.2 := by
-  simp [dirs2', List.mem_filter]
+    d ∈ dirs2' s ↔ d ∈ s.dirs2 ∧ ∃ ff ∈ files' s, ff.level = .leaf ∧ ff.d1 = d.1 ∧ ff.d2 = d.2 := by
+  simp [dirs2', List.mem_filter, FsFile.inDir2]
 
 theorem mem_dirs1' {s : St} {d : Nat} :
-    d ∈ dirs1' s ↔ d ∈ s.dirs1 ∧ ((∃ d2 ∈ dirs2' s, d2.1 = d) ∨ ∃ ff ∈ files' s, ff.d1 = d) := by
-  simp [dirs1', List.mem_filter]
+    d ∈ dirs1' s ↔ d ∈ s.dirs1 ∧
+      ((∃ d2 ∈ dirs2' s, d2.1 = d) ∨ ∃ ff ∈ files' s, ff.level ≠ .top ∧ ff.d1 = d) := by
+  simp [dirs1', List.mem_filter, FsFile.under]
 
 
 /-! ### the warnings -/
@@ -471,9 +472,18 @@ theorem filePass_snd_congr (fix fix' : Bool) (named : List Nat) (s t : St) (h : 
   rw [filePass_snd, filePass_snd, h]
 
 theorem filePass_nil_iff (fix : Bool) (s : St) :
-    (filePass fix (s.rows.filterMap (·.file)) s).2 = [] ↔ ∀ ff ∈ s.files, ∃ r ∈ s.rows, r.file = some ff.id := by
+    (filePass fix (s.rows.filterMap (·.file)) s).2 = [] ↔
+      ∀ ff ∈ s.files, ff.db = false → ∃ r ∈ s.rows, r.file = some ff.id := by
   rw [filePass_snd]
-  simp [List.filter_eq_nil_iff, List.mem_filterMap]
+  simp only [List.map_eq_nil_iff, List.filter_eq_nil_iff]
+  constructor
+  · intro h ff hff hdb
+    have := h ff hff
+    simpa [hdb, List.mem_filterMap] using this
+  · intro h ff hff
+    cases hdb : ff.db with
+    | true => simp
+    | false => simpa [List.mem_filterMap] using h ff hff hdb
 
 theorem dirPass_kind (fix : Bool) (s : St) : ∀ w ∈ (dirPass fix s).2, w.kind = 2 := by
   intro w hw
@@ -491,10 +501,11 @@ theorem dirPass_snd_congr (fix : Bool) (s t : St) (h1 : s.files = t.files) (h2 :
 
 theorem dirPass_false_nil_iff (s : St) :
     (dirPass false s).2 = [] ↔
-      (∀ d ∈ s.dirs2, ∃ ff ∈ s.files, ff.d1 = d.1 ∧ ff.d2 = d.2) ∧
-      (∀ d ∈ s.dirs1, (∃ d2 ∈ s.dirs2, d2.1 = d) ∨ ∃ ff ∈ s.files, ff.d1 = d) := by
+      (∀ d ∈ s.dirs2, ∃ ff ∈ s.files, ff.level = .leaf ∧ ff.d1 = d.1 ∧ ff.d2 = d.2) ∧
+      (∀ d ∈ s.dirs1, (∃ d2 ∈ s.dirs2, d2.1 = d) ∨ ∃ ff ∈ s.files, ff.level ≠ .top ∧ ff.d1 = d) := by
   rw [dirPass_snd_false]
-  simp only [List.append_eq_nil_iff, List.map_eq_nil_iff, List.filter_eq_nil_iff, dir2Empty]
+  simp only [List.append_eq_nil_iff, List.map_eq_nil_iff, List.filter_eq_nil_iff, dir2Empty,
+    FsFile.inDir2, FsFile.under]
   simp
   intro _
   constructor
@@ -519,7 +530,7 @@ theorem dirPass_mono (s : St) (fs : List FsFile) (hsub : ∀ f ∈ fs, f ∈ s.f
   simp only [List.mem_append, List.mem_map, List.mem_filter, dir2Empty] at hw ⊢
   rcases hw with ⟨d, ⟨hd, he⟩, rfl⟩ | ⟨d, ⟨hd, he⟩, rfl⟩
   · refine Or.inl ⟨d, ⟨hd, ?_⟩, rfl⟩
-    simp only [Bool.not_eq_true', List.any_eq_false, Bool.and_eq_true, beq_iff_eq, not_and] at he ⊢
+    simp only [Bool.not_eq_true', List.any_eq_false] at he ⊢
     exact fun f hf => he f (hsub f hf)
   · refine Or.inr ⟨d, ⟨hd, ?_⟩, rfl⟩
     simp only [Bool.and_eq_true, Bool.not_eq_true', List.any_eq_false, beq_iff_eq, List.mem_filter,
